@@ -7,6 +7,7 @@ HARNESS = {
     'tree': dict(src=['h_tree.cpp'], hdr=5, rec=3),
     'heap': dict(src=['h_heap.cpp'], hdr=4, rec=3),
     'map': dict(src=['h_map.cpp'], hdr=5, rec=3),
+    'hash': dict(src=['h_hash.cpp'], hdr=7, rec=4),
 }
 
 def g2_jobs(harness, cases_per_worker, workers=16, variant='asan', tagx=''):
@@ -196,6 +197,45 @@ def plan(prop, tier, seed, budget):
                  'accounting (one node per entry, none after clear). Non-trivial: >= 1 re-insert of an existing key with '
                  'another cell, >= 1 successful erase, and a non-ascending insertion order. Distinct = distinct case bytes.',
             assumptions=COMMON_ASSUME,
+        )
+    elif prop in ('C03', 'C04', 'C19'):
+        if prop == 'C03':
+            sc = ['1:3:0,1,2:0,3', '2:2:0,1,2,4:0,3'] if q else ['1:4:0,1,2:0,3', '2:3:0,1,2,4:0,3', '1:3:0,1,2,3:0,1,3', '3:3:1,3:0,3']
+            rule = ('case = byte-coded history over 1-2 cstl_hash tables: resize (bucket counts 1..64, seven hash functions or NULL, '
+                    'also while a rehash is pending), rehash, shrink_to_fit, insert (duplicate keys by design), find without / with an '
+                    'accepting / rejecting visitor, erase of a live object, erase of an object that is not in the table, swap; oracle = '
+                    'membership model keyed by element address: size after every op; find non-NULL iff the key is live and the result '
+                    'is a live element with that key; every offered object live, right key, offered once; reject-all offers exactly '
+                    'the model set; every case ends with a reject-all audit of every key. Non-trivial: >= 1 insert and >= 1 erase while '
+                    'a rehash is pending, >= 1 resize issued while pending, >= 2 live objects sharing a key at a visitor find.')
+        elif prop == 'C04':
+            sc = ['1:3:0,1,2:0,3:fc', '1:3:0,1,2:0,3:cl', '1:3:0,1,2:0,3:fx', '1:3:0,1,2:0,3:fe'] if q else \
+                 ['1:4:0,1,2:0,3:fc', '1:4:0,1,2:0,3:cl', '1:3:0,1,2:0,3:fx', '1:3:0,1,2:0,3:fe', '2:3:0,1,2,4:0,3:fc', '2:3:0,1,2,4:0,3:cl']
+            rule = ('case = the C03 history language plus foreach (stop at n-th / erase-and-free a subset of the visited elements), '
+                    'foreach_const (stop), clear (callback that frees, or NULL on an empty table) followed by further resize/insert/find, '
+                    'issued at any moment including right after a resize and after 0..B keyed ops of a grow or shrink; oracle = per-address '
+                    'visit counters: every live element exactly once and nothing else, stop value returned after exactly n distinct live '
+                    'elements, erase-in-callback leaves exactly the complement, clear callback once per live element, size 0, bucket array '
+                    'released, table usable again after a fresh resize (continues under the model). G1: closure over all table states of '
+                    'the scope x {foreach_const, foreach, foreach(erase), clear+reuse}. Non-trivial: an enumeration/clear while a grow is '
+                    'pending with an element already relocated beyond the old bucket count AND one while a shrink is pending.')
+        else:
+            sc = ['3:3:0,2,4:0,1', '3:4:0,1,3:0,3'] if q else ['4:5:0,1,2,3,5:0,3', '4:6:0,1,3,5:0,1,3', '5:6:1,3,7:0,3']
+            rule = ('case = hash history with UNIQUE keys and logging hash functions (every call appends (function, k, m) to a per-op log); '
+                    'oracle = (1) after every satisfiable resize(n,f): cstl_hash_load == size/n; (2) a keyed op while a rehash is pending '
+                    'logs the lookup under the current and under the requested geometry, then only relocation calls into the requested '
+                    'geometry whose elements came from at most 3 distinct buckets (the model tracks each element\'s physical bucket); '
+                    '(3) from the (B+1)-th keyed op after the resize was accepted (B = bucket count then) and after any forced completion '
+                    'every keyed op logs exactly one call (k, n, most recently requested function). Non-trivial: a resize issued while '
+                    'another is pending, >= 4 non-empty buckets at a resize, both a grow and a shrink.')
+        P = dict(
+            level='exploration',
+            builds=[('hash', 'asan')] + ([] if q else [('hash', 'rel'), ('hash', 'fuzz')]),
+            jobs=[g1_jobs('hash', sc, 200000 if q else 3000000), g2_jobs('hash', 60000 if q else 600000)] +
+                 ([] if q else [g2_jobs('hash', 60000, variant='rel'), g3_jobs('hash', 400000)]),
+            py=[] if q else [g3_stats('hash')],
+            rule=rule + ' Distinct = distinct case bytes.',
+            assumptions=COMMON_ASSUME + ['rehash-pending statistics are read from the public struct fields (counters only)'],
         )
     else:
         raise SystemExit('no plan for property %s' % prop)
